@@ -116,22 +116,43 @@ ValOK(f, v) == IF IsNum(f) THEN v \in 0..(Pow2(f.width) - 1)
                ELSE Len(v) = f.width \div 8 /\ \A k \in 1..Len(v) : v[k] \in 0..255
 RecOK(L, rec) == DOMAIN rec = DOMAIN L.fields /\ \A n \in DOMAIN rec : ValOK(L.fields[n], rec[n])
 
-(* k-th bit (0 = most significant) of the value v of field f *)
-ValBit(f, v, k) ==
-  IF IsNum(f) THEN (v \div Pow2(f.width - 1 - k)) % 2
-  ELSE (v[(k \div 8) + 1] \div Pow2(7 - (k % 8))) % 2
+(* The value v of field f as a bit string, most significant bit first *)
+FieldBits(f, v) ==
+  IF IsNum(f) THEN [k \in 1..f.width |-> (v \div Pow2(f.width - k)) % 2]
+  ELSE [k \in 1..f.width |-> (v[((k - 1) \div 8) + 1] \div Pow2(7 - ((k - 1) % 8))) % 2]
 
-BitAt(L, rec, p) ==
-  LET S == {n \in DOMAIN L.fields : FStart(L.fields[n]) <= p /\ p < FEnd(L.fields[n])} IN
-  IF S = {} THEN 0
-  ELSE LET n == CHOOSE x \in S : TRUE IN ValBit(L.fields[n], rec[n], p - FStart(L.fields[n]))
-
-Enc(L, rec) ==
-  [j \in 1..L.size |->
+PackBits(bits) ==
+  [j \in 1..(Len(bits) \div 8) |->
      LET q == 8 * (j - 1) IN
-       128 * BitAt(L, rec, q)     + 64 * BitAt(L, rec, q + 1) + 32 * BitAt(L, rec, q + 2)
-     + 16  * BitAt(L, rec, q + 3) + 8  * BitAt(L, rec, q + 4) + 4  * BitAt(L, rec, q + 5)
-     + 2   * BitAt(L, rec, q + 6) +      BitAt(L, rec, q + 7)]
+     128 * bits[q + 1] + 64 * bits[q + 2] + 32 * bits[q + 3] + 16 * bits[q + 4]
+     + 8 * bits[q + 5] + 4 * bits[q + 6] + 2 * bits[q + 7] + bits[q + 8]]
+
+(* Fields in wire order.  Because the fields tile the header (LayoutOK), the
+   header's bit string is the concatenation of the field bit strings: this
+   is the DEFINITION of the encoding. *)
+WireOrder(L) == SetToSortSeq(DOMAIN L.fields, LAMBDA a, b : FStart(L.fields[a]) < FStart(L.fields[b]))
+
+EncDef(L, rec) ==
+  LET ord == WireOrder(L) IN
+  PackBits(FlattenSeq([k \in DOMAIN ord |-> FieldBits(L.fields[ord[k]], rec[ord[k]])]))
+
+(* The same function evaluated run by run (a run = the fields between two
+   consecutive byte-aligned field starts): a run that is one field of whole
+   bytes contributes its bytes directly, any other run is packed from bits.
+   CodecVec checks Enc = EncDef on sample records of every layout. *)
+FieldBytes(f, v) ==
+  IF IsNum(f) THEN LET n == f.width \div 8 IN [j \in 1..n |-> (v \div Pow2(8 * (n - j))) % 256]
+  ELSE v
+Enc(L, rec) ==
+  LET ord    == WireOrder(L)
+      starts == {k \in DOMAIN ord : FStart(L.fields[ord[k]]) % 8 = 0}
+      RunEnd(k) == IF \E m \in starts : m > k THEN (CHOOSE m \in starts : m > k /\ \A x \in starts : x > k => m <= x) - 1
+                   ELSE Len(ord)
+      RunBytes(k) ==
+        LET e == RunEnd(k)  f == L.fields[ord[k]] IN
+        IF e = k /\ f.width % 8 = 0 THEN FieldBytes(f, rec[ord[k]])
+        ELSE PackBits(FlattenSeq([m \in 1..(e - k + 1) |-> FieldBits(L.fields[ord[k + m - 1]], rec[ord[k + m - 1]])]))
+  IN FlattenSeq([k \in DOMAIN ord |-> IF k \in starts THEN RunBytes(k) ELSE <<>>])
 
 ByteBit(bytes, p) == (bytes[(p \div 8) + 1] \div Pow2(7 - (p % 8))) % 2
 
@@ -247,6 +268,21 @@ ExpectTcp(ops) ==
                [] OTHER          -> r,
            TcpDefault, Live(ops))
 
+(* Option instances the encoder sequences of E1 are built from (OptParse);
+   InstTable exports them with their reference encoding for the replay. *)
+V1 == <<1, 2, 3, 4>>
+V2 == <<255, 254, 253, 252>>
+V3 == <<128, 0, 0, 127>>
+Blk(b) == <<b, 1, 2, 3, b, 4, 5, 6>>
+InstSmall == << <<"mss", 1460>>, <<"mss", 65535>>, <<"ws", 7>>, <<"ws", 15>>, <<"ts", V1, V2>>,
+                <<"sackperm">>, <<"sack", <<Blk(16)>> >>, <<"sack", <<Blk(32), Blk(33)>> >>,
+                <<"nop">>, <<"eol">>, <<"unk", 171, <<5>> >> >>
+InstBig == InstSmall \o
+           << <<"mss", 1>>, <<"mss", 258>>, <<"ws", 0>>, <<"ws", 14>>, <<"ws", 255>>, <<"ts", V3, V1>>,
+              <<"sack", <<Blk(48), Blk(49), Blk(50)>> >>, <<"sack", <<Blk(64), Blk(65), Blk(66), Blk(67)>> >>,
+              <<"unk", 30, <<>> >>, <<"unk", 254, <<0, 1>> >> >>
+InstTable(list) == [k \in DOMAIN list |-> [op |-> list[k], bytes |-> EncOpt(list[k])]]
+
 -----------------------------------------------------------------------------
 (* I-specs of the two parsers: one loop iteration as a function from
    (o, i, r) to the SET of outcomes.  `o` is the input (length = limit) in
@@ -266,7 +302,10 @@ Rd(o, k) == IF k < Len(o) THEN o[k + 1] ELSE 0
 
 Fill(o, K, Alphabet) ==
   LET U == {k \in K : k < Len(o) /\ o[k + 1] = -1} IN
-  {[j \in 1..Len(o) |-> IF (j - 1) \in U THEN f[j - 1] ELSE o[j]] : f \in [U -> Alphabet]}
+  IF U = {} THEN {o}
+  ELSE IF Cardinality(U) = 1
+       THEN LET k == CHOOSE x \in U : TRUE IN {[o EXCEPT ![k + 1] = b] : b \in Alphabet}
+       ELSE {[j \in 1..Len(o) |-> IF (j - 1) \in U THEN f[j - 1] ELSE o[j]] : f \in [U -> Alphabet]}
 
 Out(o, i, r, d, mx) == <<o, i, r, IF d = 0 /\ i >= Len(o) THEN 1 ELSE d, mx>>
 
